@@ -192,7 +192,8 @@ Proof.
     + destruct (split_args (skipn (S pos) toks)) as [rest args|e] eqn:Hsa; [|split; [reflexivity | exact Logic.I]].
       destruct (split_args_clean _ _ _ Hsa Hafter) as [Hr Ha].
       destruct (Nat.eqb (m_params m) 0).
-      * destruct args as [|[|t0 a0] [|a1 ar]]; try (split; [reflexivity | exact Logic.I]).
+      * destruct args as [|a0 [|a1 ar]]; try (split; [reflexivity | exact Logic.I]).
+        destruct (forallb is_ws a0); [|split; [reflexivity | exact Logic.I]].
         apply Hstep; [exact Hr | constructor].
       * destruct (Nat.eqb (List.length args) (m_params m)); [|split; [reflexivity | exact Logic.I]].
         apply Hstep; assumption.
